@@ -177,7 +177,7 @@ func (l *ledger) scan(fn *ssa.Function) {
 			l.r.OK(rule, pos, name, kind+": "+what, why)
 			return
 		}
-		if isGov {
+		if isGov && (kind == "index" || kind == "slice" || kind == "make") {
 			l.counts["invariant-governed"]++
 			l.r.Undecided(rule, pos, name, kind+": "+what, "invariant-governed ("+gov+"); "+why)
 			return
@@ -299,7 +299,13 @@ func (l *ledger) assertSafe(ta *ssa.TypeAssert) (bool, string) {
 		}
 		// inside isAndOpNode/isOrOpNode style: `if kind != operator && kind != fastOperator { return }`
 		if everyEdgeHasKind(ta.Block(), k, base) {
-			return true, "reached only for kind operator or fastOperator, whose value is a string (R-KIND)"
+			return true, "reached only for kind variable, operator or fastOperator, whose value is a string (R-KIND)"
+		}
+		// the node is a parameter: every call site passes a node of such a kind (one level)
+		if p, isParam := base.(*ssa.Parameter); isParam {
+			if ok, why := l.callSitesPassStringKind(p); ok {
+				return true, why
+			}
 		}
 	}
 	// node.value.(LoopEventData) under kind == event
@@ -338,7 +344,7 @@ func everyEdgeHasKind(b *ssa.BasicBlock, k nodeKinds, node ssa.Value) bool {
 		ok := everyEdgeInto(d, func(facts []Fact) bool {
 			for _, f := range facts {
 				n, kc, isEq, okk := k.kindTest(f.Cond)
-				if okk && same(n) && isEq == f.Truth && (kc == k.operator || kc == k.fastOperator) {
+				if okk && same(n) && isEq == f.Truth && (kc == k.operator || kc == k.fastOperator || kc == k.variable) {
 					return true
 				}
 			}
@@ -711,4 +717,41 @@ func (l *ledger) enumIndex(ia *ssa.IndexAddr) (bool, string) {
 		return false, ""
 	}
 	return true, fmt.Sprintf("index of unexported enum type %s: all %d constants lie in [0, %d) and no value of the type is produced by conversion or arithmetic", named.Obj().Name(), len(consts), n)
+}
+
+// callSitesPassStringKind: every call of the parameter's function passes a
+// node whose kind, at the call, is variable, operator or fastOperator.
+func (l *ledger) callSitesPassStringKind(p *ssa.Parameter) (bool, string) {
+	fn := p.Parent()
+	idx := -1
+	for i, q := range fn.Params {
+		if q == p {
+			idx = i
+		}
+	}
+	node := l.w.VTA.Nodes[fn]
+	if idx < 0 || node == nil || len(node.In) == 0 {
+		return false, ""
+	}
+	if fn.Object() != nil && fn.Object().Exported() {
+		return false, ""
+	}
+	k := l.kinds
+	for _, e := range node.In {
+		args := e.Site.Common().Args
+		if idx >= len(args) {
+			return false, ""
+		}
+		arg := args[idx]
+		poss := k.kindsPossibleAt(e.Site.Block(), func(n ssa.Value) bool { return n == arg || sameValueShape(n, arg) })
+		if poss == nil || len(poss) == 0 {
+			return false, ""
+		}
+		for kc := range poss {
+			if kc != k.variable && kc != k.operator && kc != k.fastOperator {
+				return false, ""
+			}
+		}
+	}
+	return true, fmt.Sprintf("all %d call site(s) pass a node whose kind is variable, operator or fastOperator at the call (R-KIND: its value is a string)", len(node.In))
 }
